@@ -206,7 +206,7 @@ VARS = ["pc", "LA"] + ["r%d" % i for i in range(1, 32)] + ["ld0", "ld1"]
 def solve(queries, solver):
     lines = ["(set-logic QF_BV)", "(set-option :produce-models true)"] + DECLS
     for i, q in enumerate(queries):
-        lines += ["(push 1)", "(assert %s)" % q, '(echo "Q%d")' % i, "(check-sat)", "(pop 1)"]
+        lines += ["(push 1)", '(echo "Q%d")' % i, "(assert %s)" % q, "(check-sat)", "(pop 1)"]
     cmd = ["/usr/bin/z3", "-in", "-t:60000"] if solver == "z3" else ["cvc5", "--incremental", "--lang", "smt2", "--tlimit-per=60000"]
     t0 = time.time()
     p = subprocess.run(cmd, input="\n".join(lines) + "\n", stdout=subprocess.PIPE, stderr=subprocess.STDOUT, text=True, timeout=3600)
@@ -214,7 +214,8 @@ def solve(queries, solver):
     res = {}
     for k in range(1, len(chunks), 2):
         c = chunks[k + 1]
-        st = (c.strip().split("\n") or ["?"])[0].strip()
+        words = [w.strip() for w in c.strip().split("\n") if w.strip() in ("sat", "unsat", "unknown")]
+        st = words[-1] if words else "?"
         res[int(chunks[k])] = "error" if "(error" in c else (st if st in ("sat", "unsat") else "unknown")
     if "(error" in chunks[0]:
         res = {}
